@@ -22,13 +22,17 @@
 EXTENDS Integers, FiniteSets, TLC
 
 CONSTANTS CPos, CVal, Models, Means, Poss, Seeds,
-          ClearOnSetCondition   \* TRUE: set_condition deletes the stored fields (code after the fix)
+          ClearOnSetCondition,  \* TRUE: set_condition deletes the stored fields (code after the fix)
+          ReuseNeedsOwnResult   \* TRUE: CondSRF reuses its raw kriging field only together with the very
+                                \* kriging variance array it stored itself (code after the fix); FALSE: the
+                                \* mere presence of a kriging variance in the Krige object suffices
 
 VARIABLES cfg, pos, seed, dirty, op,       \* ideal
-          mat, kvar, rawk, res            \* code-shaped: matrix provenance, stored fields, last result tag
+          mat, kvar, rawk, res,           \* code-shaped: matrix provenance, stored fields, last result tag
+          own                             \* code-shaped: the stored kriging variance was produced by a CondSRF call
 
 ivars == <<cfg, pos, seed, dirty>>
-vars  == <<cfg, pos, seed, dirty, op, mat, kvar, rawk, res>>
+vars  == <<cfg, pos, seed, dirty, op, mat, kvar, rawk, res, own>>
 
 Keep == 0
 NoTag == [none |-> TRUE]
@@ -44,7 +48,7 @@ FreshTag(c, p) == Tag(c, [cpos |-> c.cpos, model |-> c.model], p)
 Init ==
   /\ cfg \in Cfg /\ pos = Keep /\ seed \in Seeds /\ dirty = FALSE
   /\ mat = [cpos |-> cfg.cpos, model |-> cfg.model]
-  /\ kvar = NoTag /\ rawk = NoTag /\ res = NoTag
+  /\ kvar = NoTag /\ rawk = NoTag /\ res = NoTag /\ own = FALSE
   /\ op = [name |-> "Init"]
 
 (* cond_srf(pos = p or None, seed = s or keep) *)
@@ -56,11 +60,12 @@ Call(p, s) ==
   /\ LET deleted == p # Keep /\ p # pos            \* set_pos deletes every stored field
          k0 == IF deleted THEN NoTag ELSE kvar
          r0 == IF deleted THEN NoTag ELSE rawk
-         reuse == ~deleted /\ r0 # NoTag /\ k0 # NoTag
+         reuse == ~deleted /\ r0 # NoTag /\ k0 # NoTag /\ (ReuseNeedsOwnResult => own)
          t == IF reuse THEN r0 ELSE Tag(cfg, mat, pos')
      IN /\ res' = [rawk |-> t, kvar |-> IF reuse THEN k0 ELSE t]
         /\ rawk' = t
         /\ kvar' = IF reuse THEN k0 ELSE t
+        /\ own' = TRUE
   /\ op' = [name |-> "Call", p |-> p, s |-> s, compare |-> ~dirty,
             cfg |-> cfg, pos |-> pos', seed |-> seed']
 
@@ -69,7 +74,7 @@ SetPos(p) ==
   /\ pos' = p
   /\ IF p # pos THEN kvar' = NoTag /\ rawk' = NoTag ELSE UNCHANGED <<kvar, rawk>>
   /\ op' = [name |-> "SetPos", p |-> p]
-  /\ UNCHANGED <<cfg, seed, dirty, mat, res>>
+  /\ UNCHANGED <<cfg, seed, dirty, mat, res, own>>
 
 (* krige.set_condition(cond_pos, cond_val) / set_condition(cond_val = ..) / set_condition(cond_pos = ..) /
    krige.set_condition()  (the documented refresh); `form` says which arguments are passed *)
@@ -80,7 +85,7 @@ SetCondition(cp, cv, form) ==
   /\ mat' = [cpos |-> cp, model |-> cfg.model]
   /\ dirty' = FALSE
   /\ IF ClearOnSetCondition THEN kvar' = NoTag ELSE UNCHANGED kvar
-  /\ UNCHANGED <<rawk, pos, seed, res>>
+  /\ UNCHANGED <<rawk, pos, seed, res, own>>
   /\ op' = [name |-> "SetCondition", cp |-> cp, cv |-> cv, form |-> form,
             refresh |-> (cp = cfg.cpos /\ cv = cfg.cval)]
 
@@ -90,7 +95,7 @@ ChangeModel(m, how) ==
   /\ cfg' = [cfg EXCEPT !.model = m]
   /\ dirty' = TRUE
   /\ op' = [name |-> "ChangeModel", m |-> m, how |-> how]
-  /\ UNCHANGED <<pos, seed, mat, kvar, rawk, res>>
+  /\ UNCHANGED <<pos, seed, mat, kvar, rawk, res, own>>
 
 (* cond_srf.mean = ... *)
 ChangeMean(v) ==
@@ -98,13 +103,24 @@ ChangeMean(v) ==
   /\ cfg' = [cfg EXCEPT !.mean = v]
   /\ dirty' = TRUE
   /\ op' = [name |-> "ChangeMean", v |-> v]
-  /\ UNCHANGED <<pos, seed, mat, kvar, rawk, res>>
+  /\ UNCHANGED <<pos, seed, mat, kvar, rawk, res, own>>
+
+(* cond_srf.krige(pos = p): the underlying kriging object is used directly.  It shares the
+   positions with the CondSRF object; its own set_pos deletes only ITS stored fields, the raw
+   kriging field kept by the CondSRF object survives, and the call stores a fresh kriging
+   variance that was not produced by the CondSRF object. *)
+KrigeCall(p) ==
+  /\ pos' = p
+  /\ kvar' = Tag(cfg, mat, p)
+  /\ own' = FALSE
+  /\ op' = [name |-> "KrigeCall", p |-> p]
+  /\ UNCHANGED <<cfg, seed, dirty, mat, res, rawk>>
 
 (* cond_srf.delete_fields() *)
 DeleteFields ==
   /\ rawk' = NoTag
   /\ op' = [name |-> "DeleteFields"]
-  /\ UNCHANGED <<cfg, pos, seed, dirty, mat, kvar, res>>
+  /\ UNCHANGED <<cfg, pos, seed, dirty, mat, kvar, res, own>>
 
 Next ==
   \/ \E p \in Poss \cup {Keep}, s \in Seeds \cup {Keep} : Call(p, s)
@@ -113,6 +129,7 @@ Next ==
   \/ \E m \in Models, how \in {"inplace", "assign"} : ChangeModel(m, how)
   \/ \E v \in Means : ChangeMean(v)
   \/ DeleteFields
+  \/ \E p \in Poss : KrigeCall(p)
 
 Spec == Init /\ [][Next]_vars
 
@@ -127,5 +144,5 @@ Coherent == (Calling /\ ~dirty) =>
 (* whenever nothing is dirty the stored matrix belongs to the current configuration *)
 MatrixCurrent == ~dirty => mat = [cpos |-> cfg.cpos, model |-> cfg.model]
 
-View == <<cfg, pos, seed, dirty, mat, kvar, rawk, res, op.name>>
+View == <<cfg, pos, seed, dirty, mat, kvar, rawk, res, own, op.name>>
 =============================================================================
